@@ -77,7 +77,7 @@ func mustMarshal(m proto.Message) []byte {
 }
 
 // generateDAG draws a DAG of directories bottom-up and stores it in the CAS.
-func generateDAG(t *simsync.Tape, cas *fakeCAS, allowBroken bool, logf func(string, ...interface{})) *dag {
+func generateDAG(t *simsync.Tape, cas *fakeCAS, allowBroken, manyBroken bool, logf func(string, ...interface{})) *dag {
 	g := &dag{}
 	nb := 2 + t.Choice(4)
 	for i := 0; i < nb; i++ {
@@ -93,6 +93,9 @@ func generateDAG(t *simsync.Tape, cas *fakeCAS, allowBroken bool, logf func(stri
 	brokenBudget := 0
 	if allowBroken {
 		brokenBudget = t.Choice(4)
+		if manyBroken {
+			brokenBudget = 1 + t.Choice(3)
+		}
 	}
 	for i := 0; i < nd; i++ {
 		d := &dagDir{id: i}
